@@ -285,16 +285,19 @@ def checkUserEvents (o : Orc) (k : Nat) (ms : List PMsg) : Orc × Option String 
       if v.isSome then (o', v)
       else if m.type = "user" ∧ c.alive then
         let id := m.get "id"
+        -- What the property demands of single events is only that they are about the client's own group.
+        -- (A stale event of an earlier session in the same group — a client that leaves and re-joins before
+        -- its action loop has run, or a refused join answered in between — may repeat an add or a delete, or
+        -- arrive between `joined fail` and the next `joined join`; protocol.js tolerates both and the lists
+        -- still converge, which is what is judged at quiescence.  Found by the thorough tier.)
         match c.viewGroup with
         | none =>
-          (o', some s!"C14: client {k} has not been told it is in a group but was sent a user event about {id} ({m.raw})")
+          if c.group.isNone then
+            (o', some s!"C14: client {k} is not in a group but was sent a user event about {id} ({m.raw})")
+          else (o', none)
         | some g =>
           if !c.seen.contains (g ++ "|" ++ id) then
             (o', some s!"C14: client {k} (in {g}) was sent a user event about {id}, which has never been in {g} together with it ({m.raw})")
-          else if m.kind = "delete" ∧ !c.view.any (·.1 = id) then
-            (o', some s!"C14: client {k} was told twice (or without an add) that {id} left ({m.raw})")
-          else if m.kind = "add" ∧ c.view.any (·.1 = id) then
-            (o', some s!"C14: client {k} was sent a second add for {id} ({m.raw})")
           else (o', none)
       else (o', none)) (o, none)
 
@@ -782,6 +785,7 @@ def oracle (o : Orc) (op impl : List String) : Orc × Option String :=
       match i.toNat? with
       | some i => (o.modClient i fun c => { c with up := c.up ++ [unesc id] }, none)
       | none => (o, none)
+    -- (status `ok`: a parked change announcement, finding P17; `ok:add` etc.: something else was parked, which is not P17)
     | ["release", _, _] => (if r.status = "ok" then { o with released := true } else o, none)
     | ["mock", g, id] =>
       if r.status ≠ "ok" then (o, none) else
